@@ -12,4 +12,5 @@ func init() {
 	quartz.VAddTimer = vrt.AddTimer
 	quartz.VSpawn = vrt.Spawn
 	quartz.VPoint = func() { vrt.Point(vrt.KLock, 0) }
+	quartz.VBlock = func(why string, pred func() bool) { vrt.Block(vrt.KBlock, 0, why, pred) }
 }
